@@ -498,13 +498,18 @@ def apply_param_values(B, case):
     pv = case.get("param_values", {})
     N = case["method"]["N"]
     offs = {"": 0, "control": 0, "control+": 0}
+    cat = {}      # rows -> [(symbol, value)]: global parameters set in one go through a simple concatenation
     for g, p, d in B.pdecl:
         n = p.numel()
         o = offs[g]
         if g == "":
             vals = pv.get("p", [])[o:o + n]
             if len(vals) == n:
-                B.ocp.set_value(p, ca.DM([float(Fr(v)) for v in vals]).reshape(p.shape))
+                val = ca.DM([float(Fr(v)) for v in vals]).reshape(p.shape)
+                if case.get("param_cat"):
+                    cat.setdefault(p.shape[0], []).append((p, val))
+                else:
+                    B.ocp.set_value(p, val)
         else:
             cols = pv.get("pc" if g == "control" else "pp", [])
             if cols and len(cols[0]) >= o + n:
@@ -514,6 +519,11 @@ def apply_param_values(B, case):
                     mat = ca.hcat([ca.DM([float(Fr(v)) for v in col[o:o + n]]).reshape(p.shape) for col in cols])
                 B.ocp.set_value(p, mat)
         offs[g] += n
+    for rows, grp in cat.items():
+        if len(grp) == 1:
+            B.ocp.set_value(grp[0][0], grp[0][1])
+        else:
+            B.ocp.set_value(ca.horzcat(*[p for p, v in grp]), ca.horzcat(*[v for p, v in grp]))
 
 
 class NodesFn:
